@@ -111,7 +111,8 @@ func binds(bs *syntax.BindStms) []interface{} {
 }
 
 func call(c *syntax.CallStm) M {
-	m := M{"id": c.Id, "callee": c.DecId, "binds": binds(c.Bindings), "mapped": c.Mapping != nil || c.CallMode() != syntax.ModeSingleCall}
+	m := M{"id": c.Id, "callee": c.DecId, "binds": binds(c.Bindings), "mapped": c.Mapping != nil || c.CallMode() != syntax.ModeSingleCall,
+		"mode": c.CallMode().String()}
 	mods := M{"local": false, "preflight": false, "volatile": false, "binds": []interface{}{}}
 	if c.Modifiers != nil {
 		mods["local"] = c.Modifiers.Local
@@ -282,4 +283,60 @@ func Normalize(m M) M {
 		fold(c)
 	}
 	return m
+}
+
+// Batch: compiles every listed top-level file and prints one JSON line each:
+// {id, ok, error, abs, graph}.  in: ndjson {id, dir, top}
+func Batch(args []string) int {
+	f, err := os.Open(args[0])
+	if err != nil {
+		fmt.Fprintln(os.Stderr, err)
+		return 2
+	}
+	defer f.Close()
+	out, _ := os.Create(args[1])
+	defer out.Close()
+	dec := json.NewDecoder(f)
+	enc := json.NewEncoder(out)
+	for dec.More() {
+		var c struct{ Id, Dir, Top string }
+		if err := dec.Decode(&c); err != nil {
+			fmt.Fprintln(os.Stderr, err)
+			return 2
+		}
+		res := M{"id": c.Id}
+		func() {
+			defer func() {
+				if x := recover(); x != nil {
+					res["ok"] = false
+					res["error"] = fmt.Sprint("panic: ", x)
+				}
+			}()
+			src, err := os.ReadFile(c.Dir + "/" + c.Top)
+			if err != nil {
+				res["ok"], res["error"] = false, err.Error()
+				return
+			}
+			var p syntax.Parser
+			_, _, ast, err := p.ParseSourceBytes(src, c.Dir+"/"+c.Top, []string{c.Dir}, false)
+			if err != nil {
+				res["ok"], res["error"] = false, err.Error()
+				return
+			}
+			res["ok"] = true
+			res["abs"] = Normalize(Abstract(ast))
+			if ast.Call != nil {
+				if g, err := ast.MakeCallGraph("ID.", ast.Call); err == nil {
+					if b, err := json.Marshal(g); err == nil {
+						res["graph"] = string(b)
+					}
+				} else {
+					res["graph_error"] = err.Error()
+				}
+			}
+			res["text"] = string(src)
+		}()
+		enc.Encode(res)
+	}
+	return 0
 }
